@@ -135,7 +135,10 @@ def ops : List OpEntry := [
                   pure (if c then unwords32 y else unwords32 x))⟩,
   ⟨"ct.macresult.eq", binB (fun a b => some (boolStr (macResultEq a b))), binB (fun a b => some (boolStr (a == b)))⟩,
   ⟨"ct.tag.eq", binB (fun a b => some (if a.length = 16 ∧ b.length = 16 then boolStr (macResultEq a b) else "PANIC")),
-                binB (fun a b => some (if a.length = 16 ∧ b.length = 16 then boolStr (a == b) else "PANIC"))⟩
+                binB (fun a b => some (if a.length = 16 ∧ b.length = 16 then boolStr (a == b) else "PANIC"))⟩,
+  -- `<&Tag as CtEqual>::ct_ne` = negate of the array equality
+  ⟨"ct.tag.ne", binB (fun a b => some (if a.length = 16 ∧ b.length = 16 then boolStr (!macResultEq a b) else "PANIC")),
+                binB (fun a b => some (if a.length = 16 ∧ b.length = 16 then boolStr (a != b) else "PANIC"))⟩
 ]
 
 end Cx.Driver.C18
